@@ -6,7 +6,7 @@ import checklib as C
 import instgen
 from props import common
 
-MODULE = "Rspirv.Props.C03KindOp"
+MODULE = "Rspirv.Props.C03All"
 PS = "Rspirv.Props.ParserSpec."
 THEOREMS = [PS + n for n in ("word_cons", "view_bytes", "string_view", "decodeElem_ref", "decodeElems_ref", "parseOperand_ref",
                              "parseLiteral_ref", "parseMany_ref", "parseNested_ref", "parseSpecConstantOp_ref", "parseOne_ref",
@@ -19,7 +19,8 @@ THEOREMS = [PS + n for n in ("word_cons", "view_bytes", "string_view", "decodeEl
            ["Rspirv.Props.C03Kind." + n for n in ("parseInst_wc0", "parseInst_unknown", "parseInst_surplus", "C03_kind_wc0",
                                                   "C03_kind_unknown")] + \
            ["Rspirv.Props.C03KindOp." + n for n in ("parseOne_op", "loop_op", "parseInst_opLevel", "C03_kind_operand",
-                                                    "C03_kind_cases")]
+                                                    "C03_kind_cases")] + \
+           ["Rspirv.Props.C02TypedConv.spec_typed", "Rspirv.Props.C02TypedInst.delivered_typed"]
 NEEDS = ("header", "core", "decode", "operand_enum", "asm_arms", "parse_operand", "operands")
 BOUNDARY = [0, 1, 2, 0xffff, 0x10000, 0x10001, 0x7fffffff, 0x80000000, 0xffffffff, 0x00030000, 0x0001ffff]
 
@@ -122,7 +123,7 @@ def run(ctx):
         T, fails = C.translate_all(ctx)
         hok, herr = C.build_harness(ctx, bins=("impl",))
         have = C.need(ctx, *NEEDS)
-        failing = C.prove(ctx, MODULE, THEOREMS, extra_targets=["driver"], files=["Rspirv/Props/C03.lean", "Rspirv/Props/C03Kind.lean", "Rspirv/Props/C03KindOp.lean", "Rspirv/Props/ParserSpec.lean", "Rspirv/Props/ParserErr.lean", "Rspirv/Model/Spec.lean", "Rspirv/Model/Parser.lean", "Rspirv/Model/Decoder.lean"]) if have else []
+        failing = C.prove(ctx, MODULE, THEOREMS, extra_targets=["driver"], files=["Rspirv/Props/C03.lean", "Rspirv/Props/C03Kind.lean", "Rspirv/Props/C03KindOp.lean", "Rspirv/Props/C02TypedConv.lean", "Rspirv/Props/C02TypedInst.lean", "Rspirv/Model/Typed.lean", "Rspirv/Props/ParserSpec.lean", "Rspirv/Props/ParserErr.lean", "Rspirv/Model/Spec.lean", "Rspirv/Model/Parser.lean", "Rspirv/Model/Decoder.lean"]) if have else []
     for n, e in failing:
         ctx.issue(f"theorem:{n}", f"Lean obligation no longer checks: {e['msg'][:300]}", witness=e)
     if not hok:
